@@ -73,4 +73,32 @@ example :
         eps := 0 }
     consistent g = true ∧ (run g).cost = some (5 / 2) := by decide +kernel
 
+-- non-vacuity of `poly_search_optimal` (all hypotheses jointly) and of `poly_moves_admissible`, on the graph above:
+-- the search is `found`, so every route of the state graph costs at least the returned 5/2; and the move
+-- 1 → 3 after 0 → 1 is a successor (one bend, cost 1 + 1/2)
+example :
+    let g : PolyGraph :=
+      { S := { n := 4, edges := [], bend := (fun _ _ _ => 1), ok := (fun _ _ _ => true), pen := 1 / 2 }
+        adj := #[[(1, 1), (2, 2)], [(0, 1), (3, 1)], [(0, 2), (3, 2)], [(1, 1), (2, 2)]]
+        hs := #[2, 1, 2, 0]
+        corner := (fun v => v == 1 || v == 2)
+        src := 0
+        tar := 3
+        eps := 0 }
+    (∀ u c path, Reach (problem g) g.tar (some u) c path → g.tar ∉ path.tail → (5 / 2 : Rat) ≤ c) ∧
+    (∃ d, ((3 : Nat), d) ∈ g.adj.getD 1 [] ∧ admissible g.S (some 0) 1 3 = true ∧ (3 / 2 : Rat) = d + g.S.pen * (bendOf g.S (some 0) 1 3 : Nat)) := by
+  intro g
+  have hcost : (run g).cost = some (5 / 2) := by decide +kernel
+  constructor
+  · cases h : run g with
+    | found b done =>
+      rw [h] at hcost
+      have hb : b.g = 5 / 2 := Option.some.inj hcost
+      rw [← hb]
+      exact poly_search_optimal g rfl (by decide) (by decide +kernel) (by decide +kernel) (fuel g) b done h
+    | noPath => rw [h] at hcost; cases hcost
+    | outOfFuel => rw [h] at hcost; cases hcost
+  · obtain ⟨d, h1, h2, _, h4, _⟩ := poly_moves_admissible g (some 0) 1 ⟨3, 3 / 2, 0⟩ (by decide +kernel)
+    exact ⟨d, h1, h2, h4⟩
+
 end AdaptaVerif.Props.C04AStar
